@@ -13,9 +13,9 @@ using namespace vf;
 
 namespace {
 
-enum Host { H_V4, H_NAME, H_NX, H_V6, H_V4_DEFAULT_PORT, H_REFUSED, H_V6_DEFAULT_PORT, NHOST };
-const char* HOST_URL[] = { "10.0.1.1:8000", "origin.test:8000", "nx.test:8000", "[fe80::1]:8000", "10.0.1.1", "10.0.1.1:8111", "[fe80::1]" };
-const char* HOST_NAME[] = { "10.0.1.1", "origin.test", "nx.test", "fe80::1", "10.0.1.1", "10.0.1.1", "fe80::1" };
+enum Host { H_V4, H_NAME, H_NX, H_V6, H_V4_DEFAULT_PORT, H_REFUSED, H_V6_DEFAULT_PORT, H_PORT_NOT_A_NUMBER, H_PORT_EMPTY, H_PORT_HUGE, NHOST };
+const char* HOST_URL[] = { "10.0.1.1:8000", "origin.test:8000", "nx.test:8000", "[fe80::1]:8000", "10.0.1.1", "10.0.1.1:8111", "[fe80::1]", "10.0.1.1:x8000", "10.0.1.1:", "10.0.1.1:99999999999999999999" };
+const char* HOST_NAME[] = { "10.0.1.1", "origin.test", "nx.test", "fe80::1", "10.0.1.1", "10.0.1.1", "fe80::1", "10.0.1.1", "10.0.1.1", "10.0.1.1" };
 bool reachable(int h) { return h == H_V4 || h == H_NAME || h == H_V6; }
 
 struct RK { const char* method; const char* path; const char* headers; int kind; /*0 ok, 1 malformed, 2 origin-form*/ };
